@@ -26,7 +26,9 @@ FLOW_RULES = [("192.88.2.0/24", None, None, b""), ("192.88.3.0/24", "10.9.0.0/16
               ("192.88.5.0/24", None, 17, bytes([0x0a, 0x81, 100])), ("192.88.6.0/24", None, 6, bytes([0x0b, 0x81, 46]))]
 FLOW_ACTIONS = [bytes([0x80, 0x06, 0, 0, 0, 0, 0, 0]), bytes([0x80, 0x06, 0, 0, 0x49, 0x74, 0x24, 0x00]),
                 bytes([0x80, 0x08, 0, 100, 0, 0, 0, 200])]
-VPN_ROUTES = [(25, 100, 100, "11.11.11.11/32"), (26, 100, 100, "11.11.12.0/24"), (27, 200, 1, "11.11.11.11/32")]
+VPN_ROUTES = [(25, 100, 100, "11.11.11.11/32"), (26, 100, 100, "11.11.12.0/24"), (27, 200, 1, "11.11.11.11/32"),
+              # prefix lengths that are not a multiple of 8, with significant bits in the last octet
+              (28, 100, 100, "11.12.16.0/20"), (29, 100, 100, "11.12.32.0/20")]
 VPN_RTS = [bytes([0x00, 0x02, 0, 100, 0, 0, 0, 1]), bytes([0x00, 0x02, 0, 100, 0, 0, 0, 2])]
 
 FLOW_JSON = [{"1": "192.88.2.0/24"}, {"1": "192.88.3.0/24", "2": "10.9.0.0/16"}, {"1": "192.88.4.0/24", "3": "=6"}]
@@ -115,6 +117,12 @@ class RibCtx(BaseCtx):
             return ["rest", "POST", URL + "send/update", "ok", self.rest_flow(rng)]
         if kind == "rest_vpn":
             return ["rest", "POST", URL + "send/update", "ok", self.rest_vpn(rng)]
+        if kind in ("rest_flow", "rest_vpn") and False:
+            pass
+        if kind == "query" and rng.chance(0.25):
+            # json_to_bin only converts: the tables and counters of the sent side must not move
+            self.stats["gen:json_to_bin_request"] += 1
+            return ["rest", "POST", URL + "json_to_bin", "ok", rng.pick([self.rest_flow, self.rest_vpn, self.rest_ipv4])(rng)]
         if kind == "query":
             which = rng.pick(["adj-rib-in", "adj-rib-out"])
             return ["rest", "POST", URL + which, "ok", {"data": sorted(set(rng.pick(PREFIXES) for _ in range(3)))}]
@@ -173,6 +181,10 @@ class RibCtx(BaseCtx):
             rng.shuffle(tlvs)
             raw = b"".join(rp.attr_tlv(fl, code, val) for fl, code, val in tlvs)
             self.stats["gen:attributes_in_unusual_order"] += 1
+        if attrs and raw is None and not self.as4 and rng.chance(0.15):
+            # 2-octet session: an OLD-speaker style announcement that also carries AS4_PATH (always 4-octet members)
+            raw = rp.encode_attrs(attrs, False) + rp.attr_tlv(0xC0, 17, bytes([2, 2]) + (70000).to_bytes(4, "big") + (4200000000).to_bytes(4, "big"))
+            self.stats["gen:announcement_with_as4_path"] += 1
         msg = rp.encode_update(wd, attrs, nl, as4=self.as4, dirty=dirty, raw_attrs=raw)
         if attrs and rng.chance(0.06):
             # the NLRI field ends in an impossible prefix (length 33): an erroneous UPDATE - whatever else it
@@ -198,11 +210,11 @@ class RibCtx(BaseCtx):
         return self.maybe_mixed(rng, raw)
 
     def gen_vpn(self, rng):
-        i = rng.randrange(3)
+        i = rng.randrange(len(VPN_ROUTES))
         wd = rng.chance(0.35)
         nlri = rp.vpnv4_nlri(*VPN_ROUTES[i], withdraw=wd)
         if rng.chance(0.3):
-            nlri += rp.vpnv4_nlri(*VPN_ROUTES[(i + 1) % 3], withdraw=wd)
+            nlri += rp.vpnv4_nlri(*VPN_ROUTES[(i + 1) % len(VPN_ROUTES)], withdraw=wd)
         if wd:
             raw = rp.mp_unreach(1, 128, nlri)
         else:
@@ -353,6 +365,10 @@ class RibCtx(BaseCtx):
                 # before it refuses to send it; the table the property speaks of is that one, so the model follows
                 self.stats["tx_request_saved_but_refused"] += 1
                 self.on_tx_update(op[4], v_before, v_after)
+            elif path.endswith("json_to_bin"):
+                if v_before != v_after:
+                    raise Violation("C19", "version", "json_to_bin-moved-versions",
+                                    "POST json_to_bin (conversion only) moved the version counters: %s -> %s" % (v_before, v_after))
             elif path.endswith("adj-rib-in") and isinstance(js, dict):
                 self.on_query(op[4]["data"], js, self.rx["ipv4"], "adj-rib-in")
             elif path.endswith("adj-rib-out") and isinstance(js, dict):
